@@ -89,7 +89,8 @@ def gen_history(rng: _pyrandom.Random, max_ops: int = 12, max_rows: int = 40, ma
         return {"cfg": cfg, "F": F, "ops": ops}
     if wide:
         # a node with more than 255 entries: branching factor 300, near-duplicates that do not merge
-        F = max(F, 24)
+        # (64 bits and more, 4-12 % of the bits flipped: practically all rows distinct, so the root really reaches 301 entries)
+        F = max(F, 64)
         cfg["bf"] = 300
         cfg["thr"] = rng.choice([0.95, 1.0])
         cfg["crit"] = rng.choice(["diameter", "radius"])
@@ -100,7 +101,8 @@ def gen_history(rng: _pyrandom.Random, max_ops: int = 12, max_rows: int = 40, ma
         if name == "fit":
             if wide and i == 0:
                 proto = [1 if rng.random() < 0.7 else 0 for _ in range(F)]
-                rows = [[b ^ (1 if rng.random() < 0.04 else 0) for b in proto] for _ in range(rng.choice([310, 330]))]
+                fl = rng.choice([0.04, 0.08, 0.12])
+                rows = [[b ^ (1 if rng.random() < fl else 0) for b in proto] for _ in range(rng.choice([310, 330]))]
             elif (force in ("big", "big255") and i == 0) or rng.random() < big:
                 # a large tight group: clusters that cross 127/128 and 255/256 members (width promotion), or sit exactly
                 # at the top of a counter width (255) when they are exported and re-imported
